@@ -105,6 +105,11 @@ Scan loops (`scan_rows`, `Generated/ExprsScan.lean`)
 * `if np.isnan(row.col): out[idx] = E; continue` is the separate definition `<name>_nan := E`;
 * a local bound to a call the extractor declares opaque (`ref_copies = _reference_copies_pure(..)`) is a parameter with the
   declared canonical name; the call's arguments are recorded in `<name>_calls`.
+
+Generator LOOPS (a `for x in xs:` state machine that yields values and carries variables between iterations, e.g.
+`access.get_regions` / `join_regions`) are read by the companion module `harness/looptrans.py`; its reading rules
+(yield = append, continue, `is None` tests as a match on an option, numpy vector primitives as the one-line list
+functions of `lean/CnvVerif/Model/PyPrims.lean`) are stated at the top of that file and belong to the trusted base too.
 """
 from __future__ import annotations
 
